@@ -23,4 +23,21 @@ PROPS = {
         ],
         "exhaustive_thorough": False,
     },
+    "C01": {
+        "binary": "props",
+        "level": "exploration",
+        "rule": ("histories of 8-40 steps (80 in thorough) over the application grammar (insert/update-in-place/delete/DDL/"
+                 "VACUUM/incremental_vacuum, multi-statement transactions with rollback on up to 3 connections, long readers, "
+                 "app checkpoints of all 4 modes) interleaved at statement granularity with litestream Sync/Replica.Sync/"
+                 "SyncAndWait (direct, via Store.SyncDB, or via Server+unix socket)/Checkpoint(mode)/Snapshot/Compact/Close, x "
+                 "page size x auto_vacuum x cache size x thresholds; R1 page oracle after every acknowledged step. Non-trivial = "
+                 "before an acknowledged step the history had a WAL restart since the previous ack, a shrink followed by growth, "
+                 "an app checkpoint while litestream was running, an ack inside an open app transaction, an ack with spilled "
+                 "uncommitted frames in the WAL, or a chunked sync; distinct = hash of (config, abstracted op sequence)."),
+        "assumptions": ["file replica client only", "litestream's background monitors are off; the harness is the only caller (schedules at statement granularity)",
+                        "reference image = SQLite's own recovery+checkpoint of a copy of (db, db-wal)"],
+        "runs": [
+            {"name": "histories", "test": "TestProp_C01", "kind": "rapid", "checks_quick": 600, "checks_thorough": 20000, "shards": 6},
+        ],
+    },
 }
